@@ -458,7 +458,8 @@ class PolyhedralTerm(Term):
         """
         logging.debug("GetVals: %s Vars: %s", context, vars_to_elim)
         vars_to_solve = list_intersection(context.vars, vars_to_elim)
-        assert len(context.terms) == len(vars_to_solve)
+        if len(context.terms) != len(vars_to_solve):
+            raise ValueError("The number of equations does not match the number of variables to solve for")
         exprs = [PolyhedralTerm.to_symbolic(term) for term in context.terms]
         logging.debug("Solving %s", exprs)
         vars_to_solve_symb = [sympy.symbols(var.name) for var in vars_to_solve]
@@ -1445,7 +1446,8 @@ class PolyhedralTermList(TermList):  # noqa: WPS338
         slack = res["slack"]
         indices = np.where(np.isclose(slack, 0))[0]
 
-        assert len(indices) >= num_vars_to_elim
+        if len(indices) < num_vars_to_elim:
+            raise ValueError("Context has insufficient active constraints")
         terms_added = 0
         for index in indices:
             context_term = context.terms[index]
